@@ -41,6 +41,9 @@ def handleKeys (toks : List String) (tbl : Table) : Option String :=
   | ["key.thumbprint", key] => do
     let k ← readKey key
     some (showRes ((thumbprint P keyEnv k).map strToHex))
+  | "key.setinit" :: keys => do
+    let ks ← keys.mapM readKey
+    some (showRes ((keySetInit P keyEnv ks).map fun l => showJVal (.arr (l.map fun k' => .obj k'.dict))))
   | ["key.ensurekid", key] => do
     let k ← readKey key
     some (showRes ((ensureKid P keyEnv k).map fun k' => showJVal (.obj k'.dict)))
